@@ -217,7 +217,8 @@ def convFloat (prec : Nat) (emax : Int) (s : Str) : Conv Fl :=
   | Option.none => if t.isEmpty then .none else .err .BadType
   | some (mant, dexp, used) =>
     if mant = 0 then .val ⟨0, 0⟩ (sp + sg + used)
-    else if dexp > 400 ∨ dexp < -400 then .unsup
+    else if dexp > 400 then .err .BadValue      -- beyond every binary format
+    else if dexp < -400 then .unsup
     else
       let exact : Option Fl :=
         if dexp ≥ 0 then some (Fl.norm (mant * 10 ^ dexp.toNat) 0)
@@ -458,6 +459,7 @@ def Val.toFl : Val → Fl
 inductive Src where
   | null                      -- `src == NULL`
   | text (v : Option Str)     -- the convertable of `mpt_object_set_string` (none: `val == NULL`)
+  | typed (ty : Char) (x : Val)   -- the convertable of `mpt_object_set_value`: a value of C type code `ty`
   deriving Repr, DecidableEq
 
 /-- return code of a setter -/
@@ -584,6 +586,24 @@ def clearBit (v : Int) (bit : Nat) : Int := (v.toNat &&& (255 - bit) : Nat)
 def setBit (v : Int) (bit : Nat) : Int := (v.toNat ||| bit : Nat)
 def hasBit (v : Int) (bit : Nat) : Bool := v.toNat &&& bit != 0
 
+/-- `valueConvert` of object_set_value.c for a scalar target: a value of exactly the requested type is taken as it
+    is, a 32 bit integer is converted with a range test; other combinations are not modelled -/
+def convTyped (target ty : Char) (x : Val) : Conv Val :=
+  if target = ty then .val x 1
+  else if ty = 'i' then
+    match x with
+    | .int n =>
+      let ranged (lo hi : Int) : Conv Val := if lo ≤ n ∧ n ≤ hi then .val (.int n) 3 else .err .BadType
+      match target with
+      | 'y' => ranged 0 255
+      | 'n' => ranged (-32768) 32767
+      | 'u' => ranged 0 4294967295
+      | 'f' => if n.natAbs < 16777216 then .val (.flt (Fl.norm n 0)) 3 else .unsup
+      | 'd' => .val (.flt (Fl.norm n 0)) 3
+      | _ => .unsup
+    | _ => .unsup
+  else .unsup
+
 /-- the keyword of axis `intervals` -/
 def logWord : Str := [108, 111, 103]
 
@@ -606,10 +626,16 @@ def Act.run (k : Kind) (tab : List NamedColor) (a : Act) (o : Obj) (src : Src) (
       | .val x _ => ⟨o.put f x, .ok 0⟩
       | .err e => ⟨o, .err e⟩
       | .unsup => ⟨o, .unsup⟩
+    | .typed t x =>
+      match convTyped ty t x with
+      | .val y _ => ⟨o.put f y, .ok 0⟩
+      | .err e => ⟨o, .err e⟩
+      | _ => ⟨o, .unsup⟩
   | .string f =>
     match src with
     | .null => ⟨setString o f Option.none 0, .ok 0⟩
     | .text v => ⟨setString o f v tok, .ok 0⟩
+    | .typed _ _ => ⟨o, .unsup⟩
   | .colour f reset =>
     match src with
     | .null =>
@@ -622,6 +648,7 @@ def Act.run (k : Kind) (tab : List NamedColor) (a : Act) (o : Obj) (src : Src) (
       | .val c _ => ⟨o.put f (.col c), .ok 0⟩
       | .err e => ⟨o, .err e⟩
       | .unsup => ⟨o, .unsup⟩
+    | .typed _ _ => ⟨o, .unsup⟩
   | .lattr f d lo hi reset =>
     match src with
     | .null =>
@@ -633,6 +660,12 @@ def Act.run (k : Kind) (tab : List NamedColor) (a : Act) (o : Obj) (src : Src) (
       | .val x _ => ⟨o.put f (.int x), .ok 0⟩
       | .err e => ⟨o, .err e⟩
       | _ => ⟨o, .unsup⟩
+    | .typed t x =>
+      -- 'y' first, then 'i' with the 0..255 test, then the attribute's limits
+      match convTyped 'y' t x with
+      | .val (.int n) _ => if n < lo ∨ n > hi then ⟨o, .err .BadValue⟩ else ⟨o.put f (.int n), .ok 0⟩
+      | .err _ => ⟨o, .err .BadValue⟩
+      | _ => ⟨o, .unsup⟩
   | .axisPos f =>
     match src with
     | .null => ⟨o.put f (k.dflt f), .ok 0⟩
@@ -643,6 +676,7 @@ def Act.run (k : Kind) (tab : List NamedColor) (a : Act) (o : Obj) (src : Src) (
         match skipSpaces s with
         | [] => ⟨o.put f (k.dflt f), .ok 0⟩
         | b :: _ => ⟨o.put f (.chr b.toNat), .ok 0⟩      -- 'c' for printable, else the key conversion
+    | .typed t x => if t = 'c' then ⟨o.put f x, .ok 0⟩ else ⟨o, .unsup⟩
   | .linePos f =>
     match src with
     | .null => ⟨o.put f (.flt ⟨0, 0⟩), .ok 0⟩
@@ -653,9 +687,13 @@ def Act.run (k : Kind) (tab : List NamedColor) (a : Act) (o : Obj) (src : Src) (
       | .err .BadValue =>                                  -- beyond float: the double path is tried
         match convText 'd' v with
         | .err _ => ⟨o, .err .BadType⟩
-        | _ => ⟨o, .unsup⟩                                 -- a double beyond float is stored as infinity
+        | _ => ⟨o, .err .BadValue⟩                         -- a finite double beyond the float range is refused
       | .err _ => ⟨o, .err .BadType⟩
       | .unsup => ⟨o, .unsup⟩
+    | .typed t x =>
+      match convTyped 'f' t x with
+      | .val y _ => ⟨o.put f y, .ok 0⟩
+      | _ => ⟨o, .unsup⟩
   | .fpoint f lo hi retLen =>
     match src with
     | .null => ⟨(o.put f (k.dflt f)).put (f + 1) (k.dflt (f + 1)), .ok 0⟩
@@ -665,6 +703,7 @@ def Act.run (k : Kind) (tab : List NamedColor) (a : Act) (o : Obj) (src : Src) (
       | .val (x, y) n => ⟨(o.put f (.flt x)).put (f + 1) (.flt y), .ok (if retLen then n else 0)⟩
       | .err e => ⟨o, .err e⟩
       | .unsup => ⟨o, .unsup⟩
+    | .typed _ _ => ⟨o, .unsup⟩
   | .intervals f g bit clearNone =>
     match src with
     | .null => ⟨(o.put f (k.dflt f)).put g (.int (clearBit (o.get g).toInt bit)), .ok 0⟩
@@ -679,6 +718,11 @@ def Act.run (k : Kind) (tab : List NamedColor) (a : Act) (o : Obj) (src : Src) (
         if eqNoCaseN (v.getD []) logWord 3 then
           ⟨(o.put f (.int 0)).put g (.int (setBit (o.get g).toInt bit)), .ok 0⟩
         else ⟨o, .err e⟩
+    | .typed t x =>
+      match convTyped 'y' t x with
+      | .val y _ => ⟨(o.put f y).put g (.int (clearBit (o.get g).toInt bit)), .ok 0⟩
+      | .err e => ⟨o, .err e⟩
+      | _ => ⟨o, .unsup⟩
   | .align f =>
     match src with
     | .null => ⟨o.put f (k.dflt f), .ok 0⟩
@@ -688,6 +732,11 @@ def Act.run (k : Kind) (tab : List NamedColor) (a : Act) (o : Obj) (src : Src) (
       | .val x _ => ⟨o.put f x, .ok 0⟩
       | .unsup => ⟨o, .unsup⟩
       | .err _ => ⟨o.put f (.int (alignLetters (v.getD []) 0 0)), .ok 0⟩
+    | .typed t x =>
+      match convTyped 'y' t x with
+      | .val y _ => ⟨o.put f y, .ok 0⟩
+      | .err e => ⟨o, .err e⟩
+      | _ => ⟨o, .unsup⟩
   | .clip f =>
     match src with
     | .null => ⟨o.put f (k.dflt f), .ok 0⟩
@@ -697,6 +746,11 @@ def Act.run (k : Kind) (tab : List NamedColor) (a : Act) (o : Obj) (src : Src) (
       | .val x _ => ⟨o.put f x, .ok 0⟩
       | .unsup => ⟨o, .unsup⟩
       | .err _ => ⟨o.put f (.int (clipLetters (v.getD []) 0)), .ok 0⟩
+    | .typed t x =>
+      match convTyped 'y' t x with
+      | .val y _ => ⟨o.put f y, .ok 0⟩
+      | .err e => ⟨o, .err e⟩
+      | _ => ⟨o, .unsup⟩
 
 /-- one name of the chain matches: `strcmp` or `strcasecmp` -/
 def nameHit (name : Str) (n : Str × Bool) : Bool :=
@@ -723,6 +777,7 @@ def Kind.setEmptyName (k : Kind) (o : Obj) (src : Src) : Out :=
   | .text Option.none => ⟨k.defaults, .ok 0⟩
   | .text (some []) => ⟨k.defaults, .ok 0⟩
   | .text (some _) => ⟨o, .err .BadType⟩
+  | .typed _ _ => ⟨o, .unsup⟩
 
 /-! ### getters -/
 
